@@ -137,6 +137,13 @@ def run_verus(path, ex, name, rlimit=None, seed=None, timeout=900, extra=(), mul
             l2 = s['line_start']
             if l2 - 1 < len(origin):
                 where.append(origin[l2 - 1][1])
+        for sp in d.get('spans', []):
+            lab = sp.get('label') or ''
+            if lab.startswith('at the end of the function body') or lab.startswith('at this exit') or lab.startswith('at this loop exit'):
+                l2 = sp['line_start']
+                if l2 - 1 < len(origin) and origin[l2 - 1][1]:
+                    item = origin[l2 - 1][1]
+                    srcfile, srcline = origin[l2 - 1][2], origin[l2 - 1][3]
         err = dict(message=msg, item=item, items=[w for w in where if w], clause=clause, labels=labels, out_line=line,
                    src_file=srcfile, src_line=srcline, rendered=d.get('rendered', ''))
         low = msg.lower()
@@ -200,10 +207,10 @@ if __name__ == '__main__':
     r = verify_unit(unit, default_cfg(feats))
     print('unit', r.name, 'status', r.status, r.reason)
     print('verified', r.verified, 'errors', r.n_errors, 'smt_ms', r.smt_ms, 'wall', round(r.wall_s, 1))
-    for e in r.errors:
-        print('--', e['class'], e['message'], '| item:', e['item'], '| clause:', e['clause'][:120], '|', e['labels'])
-        if '-v' in sys.argv:
-            print(e['rendered'])
+    for k, e in enumerate(r.errors):
+        print('--', e['class'], e['message'], '| item:', e['item'], '| clause:', e['clause'][:120], '|', e['labels'][:2])
+        if '-v' in sys.argv and k < 4:
+            print(e['rendered'][:1500])
     if r.log:
         print('rewrites:', [(w['rule'], w['file'], w['line']) for w in r.log.rewrites])
         print('items:', [(i['name'], i.get('external')) for i in r.log.items if i['kind'] == 'fn'])
